@@ -57,15 +57,9 @@ func init() {
 		"time.Sleep":           noop,
 		"runtime.Gosched":      noop,
 		"math/bits.OnesCount32": func(e *Engine, fr *Frame, st *State, fn *ssa.Function, args []SV, resT types.Type, pos token.Pos) SV {
-			if e.ar.mode != ModeBV {
-				panic(engErr("bits.OnesCount32 needs the bv encoding"))
-			}
 			return &Sc{e.vc.define("popc", e.ar.idxSort(), e.popcount(args[0].(*Sc).T, 32))}
 		},
 		"math/bits.OnesCount64": func(e *Engine, fr *Frame, st *State, fn *ssa.Function, args []SV, resT types.Type, pos token.Pos) SV {
-			if e.ar.mode != ModeBV {
-				panic(engErr("bits.OnesCount64 needs the bv encoding"))
-			}
 			return &Sc{e.vc.define("popc", e.ar.idxSort(), e.popcount(args[0].(*Sc).T, 64))}
 		},
 	}
